@@ -31,6 +31,8 @@ func init() {
 	})
 }
 
+const c05StallPlan = "sync-write-stalled-in-transport-until-it-is-closed"
+
 var c05Kinds = []string{"user", "user", "user", "in-read", "in-event", "in-exception", "in-active", "read-failure", "sender-failure", "parent-context", "holder", "read-failure-neterr-swallowed"}
 
 type lifeProbe struct {
@@ -207,6 +209,9 @@ func c05Trial(c *core.Ctx, id string, idx int) {
 	errs := make([]error, k)
 	for i := range errs {
 		errs[i] = fmt.Errorf("close-error-%d-%s", i, kinds[i])
+		if (kinds[i] == "user" || kinds[i] == "holder") && rng.Intn(5) == 0 {
+			errs[i] = nil // a clean close
+		}
 	}
 	reg := &closerReg{byGo: map[int64]error{}, has: map[int64]bool{}}
 	probe := &lifeProbe{reg: reg, panicInactive: rng.Intn(5) == 0}
@@ -268,6 +273,12 @@ func c05Trial(c *core.Ctx, id string, idx int) {
 	case 2:
 		plan = []mon.Step{{At: []string{"sBat", "tV0", "sRec", "tF0", "sRel"}[rng.Intn(5)], Occ: 1, Kind: mon.Gate, Until: "cEl", UntilCount: 1, Timeout: 20 * time.Millisecond}}
 		planKind = "sender-waits-for-close"
+	case 3:
+		if mode == mon.Sync {
+			// a synchronous write stalled inside the transport (peer not reading): only closing the transport ends it
+			plan = []mon.Step{{At: "tW0", Occ: 1, Kind: mon.Gate, Until: "tC0", UntilCount: 1, Timeout: 60 * time.Second}}
+			planKind = c05StallPlan
+		}
 	}
 	var wrap *[2]int
 	if idx%4 == 2 {
@@ -275,7 +286,13 @@ func c05Trial(c *core.Ctx, id string, idx int) {
 		wv := [][2]int{{64, 64}, {4096, 4096}, {0, 64}, {64, 0}, {0, 0}}[(idx/4)%5]
 		wrap = &wv
 	}
-	rig := mon.NewRig(mon.RigOpts{Mode: mode, Queue: q, Ctx: parent, NoPark: true, Plan: plan, Wrap: wrap,
+	tr := mon.NewRecTransport()
+	if rng.Intn(4) == 0 {
+		// the transport's own Close reports an error (and is closed all the same): not the error of any Close call
+		tr.CloseErr = errors.New("mock transport: close_notify: broken pipe")
+		c.Count("trials_with_failing_transport_close", 1)
+	}
+	rig := mon.NewRig(mon.RigOpts{Mode: mode, Queue: q, Ctx: parent, NoPark: true, Plan: plan, Wrap: wrap, Tr: tr,
 		Handlers: []netty.Handler{holder, probe},
 		// attribute the elected Close to its goroutine
 		OnPoint: func(p netty.VerifPoint) {
@@ -371,6 +388,33 @@ func c05Trial(c *core.Ctx, id string, idx int) {
 	close(start)
 	done := make(chan struct{})
 	go func() { cw.Wait(); close(done) }()
+	if planKind == c05StallPlan {
+		// the only thing that ends the stalled write is the transport being closed, and only Close does that: a Close call
+		// parked on a lock while the transport is still open and the write still stalled can never make progress
+		parked := 0
+		for i := 0; i < 100 && !rig.T.IsClosed(); i++ {
+			time.Sleep(100 * time.Millisecond)
+			if rig.S.Count("tW0") >= 1 && !rig.T.IsClosed() && mon.ParkedIn("(*channel).Close", "sync.Mutex.Lock", "sync.RWMutex.Lock", "semacquire") > 0 {
+				if parked++; parked >= 5 {
+					break
+				}
+			} else {
+				parked = 0
+			}
+		}
+		c.Count("stalled_sync_write_trials", 1)
+		if parked >= 5 && !rig.T.IsClosed() {
+			ops, _ := rig.T.Snapshot()
+			c.Violation("C05:close-never-closes-transport-while-a-sync-write-is-stalled", id,
+				fmt.Sprintf("a Close call is parked on a lock while a synchronous write is stalled inside the transport: the transport is never closed (Close count %d), inactive is never delivered, the Close call never returns [mode=%s closers=%v wrapper=%v]", rig.T.CloseCount(), mode, kinds, wrap),
+				map[string]interface{}{"marks": rig.S.LogString(80), "ops": tailOpString(ops)})
+			rig.S.ReleaseAll()
+			close(stopW)
+			rig.T.Close()
+			rig.Dispose()
+			return
+		}
+	}
 	select {
 	case <-done:
 	case <-time.After(15 * time.Second):
